@@ -143,9 +143,16 @@ Section Xml.
 
   Definition d_init : dstate := mkD false ([], XNode [] []) [].
 
-  (* the root xmlNode: the bottom frame (elements still open at the end of the
-     input are never attached) *)
-  Definition d_root (st : dstate) : xnode := snd (last (d_stack st) (d_cur st)).
+  (* the end of the token stream closes every element that is still open
+     (lenient parsing, repaired in /repo: they used to be dropped with what
+     they hold): each is attached to its parent as by its end tag *)
+  Fixpoint close_all (cur : frame) (stack : list frame) : xnode :=
+    match stack with
+    | [] => snd cur
+    | (plabel, pnode) :: rest => close_all (plabel, node_add (fst cur) (snd cur) pnode) rest
+    end.
+
+  Definition d_root (st : dstate) : xnode := close_all (d_cur st) (d_stack st).
 
   (* createValueNodeFromData *)
   Definition from_data (d : list str) : xval :=
